@@ -19,7 +19,7 @@ class WorldC10(World):
     PROBES = ('fit-full-rank-unique', 'fit-overdetermined', 'fit-rank-deficient', 'stale-offsets-evaluated',
               'two-targets-share-references', 'target-with-absent-descriptor', 'different-T_ref', 'given-offset',
               'custom-descriptor', 'reload-target', 'refit-after-append', 'refit-after-pop', 'setitem-then-fit',
-              'use_references-off', 'extend-with-one-shot-iterable', 'references-cloned', 'offsets-cleared',
+              'use_references-off', 'references-off-with-element-entropies', 'extend-with-one-shot-iterable', 'references-cloned', 'offsets-cleared',
               'in-memory-dict-copy-edited', 'rejected-call-then-valid-calls', 'evaluated-next-to-T_ref',
               'temperature-in-the-species-block')
     REAL = ('pmutt.empirical.references.Reference / References (all list methods, fit_HoRT_offset, getters)',
@@ -285,6 +285,19 @@ class WorldC10(World):
                 if abs(g1 - (-s * T_ref * R)) > 1e-8 * max(1.0, abs(s * T_ref * R)):
                     raise Violation('adjustment-T-independent', 'G(on)-G(off) = %r kJ/mol at %r K; expected %r' % (
                         g1, T, -s * T_ref * R))
+                # the same switch together with the element-entropy option (Gibbs energy of formation)
+                try:
+                    gs = float(t.get_G(T=T, units='kJ/mol', S_elements=True)) - \
+                        float(t.get_G(T=T, units='kJ/mol', S_elements=True, use_references=False))
+                    gs2 = float(t.get_GoRT(T=T, S_elements=True)) - float(t.get_GoRT(T=T, S_elements=True, use_references=False))
+                except (KeyError, TypeError):
+                    gs = None           # an element without a tabulated entropy, a species without a composition
+                if gs is not None:
+                    ctx.probe('references-off-with-element-entropies')
+                    if abs(gs - (-s * T_ref * R)) > 1e-8 * max(1.0, abs(s * T_ref * R)) or \
+                            abs(gs2 - (-s * T_ref / T)) > 1e-9 * max(1.0, abs(s * T_ref / T)):
+                        raise Violation('adjustment-T-independent', 'with S_elements=True: G(on)-G(off) = %r kJ/mol (G/RT: %r) at %r K; '
+                                        'expected %r (%r)' % (gs, gs2, T, -s * T_ref * R, -s * T_ref / T))
                 h1 = float(t.get_H(T=T, units='kJ/mol')) - float(t.get_H(T=T, units='kJ/mol', use_references=False))
                 h2 = float(t.get_H(T=T2, units='kJ/mol')) - float(t.get_H(T=T2, units='kJ/mol', use_references=False))
                 want = -s * T_ref * R
